@@ -497,6 +497,8 @@ if __name__ == '__main__':
     import time
     tier = sys.argv[1] if len(sys.argv) > 1 else 'quick'
     seed = int(sys.argv[2]) if len(sys.argv) > 2 else 0
+    if os.environ.get('PV_DRIVER'):
+        lib.DRIVER = os.environ['PV_DRIVER']        # a private copy of the driver (the shared tree may be rebuilding)
     ctx = lib.Ctx('C14', tier, seed)
     t0 = time.time()
     run_om(ctx)
